@@ -25,6 +25,10 @@ PID = "C17"
 DCFDEV = ("a default config file that carries sub-command content (an explicit 'subcommand' key or sections) is parsed on its own with the strict sub-command "
           "machinery: partial settings make every parse fail ('Problem in default config file ... expected subcommand'), an inner key can escape as "
           "AttributeError, and the environment does not override the file's choice")
+DCFFIRST = ("a root default config file with sections for several sub-commands and no explicit 'subcommand' key keeps only the section of the FIRST declared "
+            "sub-command when get_defaults parses it on its own; a later-declared sub-command named on the command line gets defaults instead of the file's values")
+DCFKEY = ("a root default config file that names one sub-command explicitly loses the sections of the others when it is loaded (the deviation "
+          "cfgkey-names-other through a default config file); a sub-command named on the command line gets defaults instead of the file's values")
 DEV = ("a --cfg config that names one sub-command explicitly but also carries settings for another loses those settings at load time; when the "
        "command line then selects that other sub-command it gets defaults (or the parse fails for a missing inner sub-command)")
 
@@ -256,13 +260,21 @@ def judge_model_case(rep, c, r):
         return
     if r.get("escaped"):   # an exception other than ArgumentError is never part of a recorded finding
         rep.violation(f"escaped:{r['escaped']}", f"{r['escaped']} escaped from a parse with sub-commands", case)
+    elif c["dcfdev"] and not c["dcfopaque"]:
+        # a default config file with sub-command content, environment off and no deep loss: transcribed (DcfLoaded / AlgSelectDcf of
+        # Subcommands.tla). A recorded finding only when the real code behaves exactly as that transcription.
+        ad = _norm(c["algdcf"])
+        if seen == ad:
+            rep.violation("dcf:first-section-only" if c["dcffirst"] else "dcf:cfgkey-names-other", DCFFIRST if c["dcffirst"] else DCFKEY, case)
+        else:
+            rep.violation("dcf:" + _key(c["input"], ref, seen), _what(ref, seen), case)
     elif c["dcfdev"]:
-        # the excused input class of finding dcf:subcommand-settings; what the real code did there is classified for
-        # the evidence file (the class is not transcribed: see DESIGN.md I.5, C17-r3m2)
+        # environment on / deep content pruned: the excused input class of finding dcf:subcommand-settings; what the real code did there is
+        # classified for the evidence file (the class is not transcribed: see DESIGN.md I.5, C17-r3m2)
         ac = c.get("algcfg")
-        kind = ("as-a-later-config" if ac and seen == {"err": ac["err"], "levels": [{"x": l["x"], "chosen": l["chosen"], "sections": sorted(l["sections"])} for l in ac["levels"]]}
+        kind = ("as-the-file-alone-decides" if seen == _norm(c["algdcf"]) else "as-a-later-config" if ac and seen == _norm(ac)
                 else "nested-key-error" if seen["err"] and "does not accept nested key" in (r.get("msg") or "") else "other-error" if seen["err"] else "other-result")
-        d = rep.extra.setdefault("dcf_class_outcomes", {})
+        d = rep.extra.setdefault("dcf_env_class_outcomes", {})
         d[kind] = d.get(kind, 0) + 1
         rep.violation("dcf:subcommand-settings", DCFDEV, case)
     elif c["dev"] and seen == alg:
@@ -300,7 +312,7 @@ def main(argv):
             rep.extra[f"behaviours_model_checked_{t}"] = mc.printed_total - len(td)
         else:
             td = [p for p in mc.printed if isinstance(p, dict) and "treedef" in p]
-            got_texts = [json.dumps({"input": c["input"], "ref": c["ref"], "alg": c["alg"], "dev": c["dev"], "dcfdev": c["dcfdev"], "algcfg": c.get("algcfg")}, sort_keys=True, separators=(",", ":"))
+            got_texts = [json.dumps({"input": c["input"], "ref": c["ref"], "alg": c["alg"], "dev": c["dev"], "dcfdev": c["dcfdev"], "algcfg": c.get("algcfg"), "algdcf": c.get("algdcf"), "dcffirst": c.get("dcffirst"), "dcfopaque": c.get("dcfopaque")}, sort_keys=True, separators=(",", ":"))
                          for c in mc.printed if isinstance(c, dict) and "input" in c]
         if not td or not got_texts:
             machinery_failure(PID, f"{cfgname}: nothing emitted")
@@ -350,6 +362,10 @@ def main(argv):
             case = {"nodes": c["nodes"], "input": c["input"], "call": r["call"], "env": r["env"], "observed": {"err": r["err"], "levels": r["levels"]}, "message": r.get("msg"), "failed_clauses": clauses}
             if "ref-dcf" in clauses:
                 rep.violation("dcf:subcommand-settings", DCFDEV, case)
+            elif "ref-dcf-first" in clauses:
+                rep.violation("dcf:first-section-only", DCFFIRST, case)
+            elif "ref-dcf-key" in clauses:
+                rep.violation("dcf:cfgkey-names-other", DCFKEY, case)
             elif "ref-dev-as-alg" in clauses:
                 rep.violation("cfgkey-names-other:settings-dropped", DEV, case)
             elif "ref" in clauses:
@@ -370,6 +386,10 @@ def main(argv):
     rep.explanation = (f"{n_cases} of TLC's behaviours (T1/T2 complete, T2 {'complete' if tier == 'thorough' else 'every 3rd'}, T3 {'complete' if tier == 'thorough' else 'thorough tier only'}) replayed on real parser trees; "
                        f"{len(rcases)} random (tree, input) pairs validated by TLC against Trace_Subcommands. Exhaustive w.r.t. the three fixed trees and the input grammar of MC_Subcommands only.")
     return rep.finish()
+
+
+def _norm(res):
+    return {"err": res["err"], "levels": [{"x": l["x"], "chosen": l["chosen"], "sections": sorted(l["sections"])} for l in res["levels"]]}
 
 
 def _dcfdev(inp):
